@@ -633,6 +633,13 @@ def _assigned_values(prog, f, name):
     import ast
 
     out = []
+    # the accumulator spelling: `name = []` / `for x in SOURCE: … name.append(x.attr)` -- the loop's source stands for the value
+    for loop in ast.walk(f.node):
+        if isinstance(loop, ast.For) and any(
+            isinstance(c, ast.Call) and isinstance(c.func, ast.Attribute) and c.func.attr in ("append", "extend", "add") and isinstance(c.func.value, ast.Name) and c.func.value.id == name
+            for st in loop.body for c in ast.walk(st)
+        ):  # fmt: skip
+            out.append(loop.iter)
     for n in ast.walk(f.node):
         if not isinstance(n, (ast.Assign, ast.AnnAssign)) or n.value is None:
             continue
